@@ -482,22 +482,36 @@ def run(ctx):
     if exe is None:
         return
     emb = B.cc_embed(d, os.path.join(HERE, "..", "harness", "embed_c15.c"), os.path.join(d, "embed_c15"))
+    import time
+    t0 = time.time()
+    # the C-level correspondence first: it needs no Scheme driver (a badly broken equal? stops the driver from loading)
+    inner(ctx, d, exe, emb, C, 1500 if not T else 100000)
+    t1 = time.time()
     probe = scm.run_cases(d, ["(c15-pair 1 1)"], prelude_extra=PRELUDE, imports=IMPORTS, timeout=120)
     if not probe or unquote(probe[0]) is None or not unquote(probe[0]).startswith("1111111 "):
         ctx.broken("scheme-driver", "the Scheme driver prelude does not run: %s" % (probe[0] if probe else None))
+        for e in shape_errs:
+            ctx.broken("source-shape", e)
         return
     corpus_first(ctx, d, exe, emb, C)
-    import time
-    t0 = time.time()
-    inner(ctx, d, exe, emb, C, 1500 if not T else 100000)
-    t1 = time.time()
     outer_pairs(ctx, d, exe, C, 1000 if not T else 50000)
     outer_cycles(ctx, d, 60 if not T else 2000)
     t2 = time.time()
-    histories(ctx, d, exe, C, (170, 10) if not T else (12000, 500))
+    histories(ctx, d, exe, C, (170, 10) if not T else (3000, 150))
     ctx.note("wall: inner %.0fs, outer pairs+cycles %.0fs, histories %.0fs" % (t1 - t0, t2 - t1, time.time() - t2))
     for e in shape_errs:
         ctx.broken("source-shape", e)
+    if T:
+        # independent re-check of the compiled proofs
+        from vlib import core
+        with core.CoqLock(files=[os.path.join(core.COQ, "Properties_C15.v")]):
+            r = core.sh("timeout 900 coqchk -silent -o -Q . ChibiV ChibiV.Properties_C15", cwd=core.COQ)
+        ok = r.returncode == 0 and "* Axioms: <none>" in (r.stdout + r.stderr)
+        ctx.checker_cmds.append("cd coq && coqchk -silent -o -Q . ChibiV ChibiV.Properties_C15")
+        if ok:
+            ctx.note("coqchk: Properties_C15 closure re-checked, axioms <none>")
+        else:
+            ctx.broken("coqchk", "coqchk does not accept the compiled closure of Properties_C15: %s" % (r.stdout + r.stderr)[-800:])
     ctx.assume("objects are finite trees: sharing and cycles are outside the model (the cycle-safe path of lib/chibi/equiv.scm is exercised only through (scheme base) equal? on acyclic data)")
     ctx.assume("hash-by-identity of heap objects (addresses) is not modelled: eq?-tables with heap keys are compared with the spec map only, not with the table model's layout")
     ctx.assume("the comparison/hash procedures given to make-hash-table do not mutate the table and are total; a user hash function is only required to respect the equivalence")
